@@ -53,7 +53,15 @@ func (s *kvStore) apply(ops []Operation) {
 	s.mu.Lock()
 	defer s.mu.Unlock()
 	for _, op := range ops {
-		s.data[string(op.Key)] = op
+		k := string(op.Key)
+		// Never let an entry for an older version (e.g. a late "recovered" mark produced by
+		// feedback for a version that has since been overwritten) replace a newer one: the
+		// newer operation would silently stop being gossiped.
+		if cur, ok := s.data[k]; ok && (op.Version.OlderThan(cur.Version) ||
+			(op.Version.EqualTo(cur.Version) && op.Leaseholder < cur.Leaseholder)) {
+			continue
+		}
+		s.data[k] = op
 	}
 }
 
